@@ -5,7 +5,7 @@
 //!     new <n> <LD|FD|LG|FG|TI> <6|16|32|64>   ins <n> <quad>   ens <n> <term>   rem <n> <quad>
 //!     fill <n> <k> <off> <lit|iri|qt|lang>   clone <a> <b>   cfrom <a> <b>   drop <n>
 //!     swap <a> <b>   mv <a> <b>   box <n>   take <a> <b>   all <n>   dbg <n>
-//!     esc <n> <x> <term>   resc <x>   desc <x>   via <own|ref>
+//!     esc <n> <x> <term>   resc <x>   desc <x>   via <own|ref>   gt <n> <i>
 //!
 //! Width `6` is `I6`, an `Index` type defined HERE (`Index` is a public trait) with `MAX = 6`: every
 //! history reaches "index full".  `esc` clones the term `Term::eq` to <term> that the store lends
@@ -275,6 +275,11 @@ trait Ops: Clone + Default {
     fn ens(&mut self, _t: &T, _own: bool) -> R {
         R::Bad
     }
+    /// `get_term(i)` for a raw index `i` (bare index only): `Some(true)` = a term was lent, `Some(false)` = the
+    /// call panicked (what the property demands when `i` was never handed out); the lent reference is not used
+    fn gt(&self, _i: usize) -> Option<bool> {
+        None
+    }
     /// clone (and keep, if the types allow) the first lent term `Term::eq` to `t`
     fn esc(&self, t: &T, own: bool) -> EscOut;
     fn dbg(&self) -> usize;
@@ -433,6 +438,12 @@ impl<I: Index + Default> Ops for SimpleTermIndex<I> {
             Ok(i) => R::Idx(i.into_usize()),
             Err(_) => R::Full,
         }
+    }
+    fn gt(&self, i: usize) -> Option<bool> {
+        Some(catch(AssertUnwindSafe(|| {
+            let _ = self.get_term(I::from_usize(i));
+        }))
+        .is_ok())
     }
     fn esc(&self, t: &T, own: bool) -> EscOut {
         let i = if own { self.get_index(OwnT(t)) } else { self.get_index(tgen::to_simple(t)) }?;
@@ -873,6 +884,15 @@ fn exec1(w: &mut WorldR, toks: &[&str]) -> String {
         ["all", a] => {
             if w.stores.contains_key(*a) { "ok".into() } else { bad() }
         }
+        ["gt", a, i] => {
+            let Some(e) = w.stores.get(*a) else { return bad() };
+            let Ok(i) = i.parse::<usize>() else { return bad() };
+            match each!(e.slot.get(), s => s.gt(i)) {
+                None => bad(),
+                Some(true) => "ok".into(),
+                Some(false) => "refused".into(),
+            }
+        }
         ["dbg", a] => {
             let Some(e) = w.stores.get(*a) else { return bad() };
             // `format!("{:?}", a)` walks every key and every entry: only on a store that is safe to read
@@ -1204,7 +1224,7 @@ fn random_history(ctx: &mut GenCtx, g: &TermGen, h: usize, maxlen: usize) {
         let ka = live[a].kind;
         let ti = KINDS[ka].0 == "TI";
         let graph = KINDS[ka].0.ends_with('G');
-        let roll = ctx.rng.below(112);
+        let roll = ctx.rng.below(114);
         let op: &str = match roll {
             0..=37 => "ins",
             38..=43 => "rem",
@@ -1222,7 +1242,8 @@ fn random_history(ctx: &mut GenCtx, g: &TermGen, h: usize, maxlen: usize) {
             105..=107 => "dbg",
             108 => "resc",
             109 => "desc",
-            _ => "via",
+            110 => "via",
+            _ => "gt",
         };
         // the first steps build something worth cloning
         let op = if step < 3 && !matches!(op, "ins" | "fill") { "ins" } else { op };
@@ -1395,6 +1416,7 @@ fn random_history(ctx: &mut GenCtx, g: &TermGen, h: usize, maxlen: usize) {
                 }
             }
             "via" => Some(format!("via {}", ctx.rng.pick(&["own", "ref"]))),
+            "gt" if ti => Some(format!("gt {} {}", a, ctx.rng.below(7))),
             _ => None,
         };
         if let Some(l) = line {
@@ -1503,6 +1525,14 @@ pub fn generate(ctx: &mut GenCtx) {
             // an EMPTY source over a full destination, twice
             emit_h(ctx, &[nwa.clone(), nwb, format!("fill b {} 0 lit", big), "cfrom a b".into(), "all b".into(), "dbg b".into(), "fill b 2 0 iri".into(), "cfrom a b".into(), "all b".into(), "drop a".into(), "all b".into()]);
             ctx.stats.add("scripted.clone_from_sizes", 3);
+            if *kind == "TI" {
+                // get_term with an index the store never handed out: on an empty index; an index minted by a grown
+                // clone used on the original; exactly len(); after the clone is gone.  Expected: a panic (`refused`).
+                emit_h(ctx, &[nwa.clone(), "gt a 0".into(), "fill a 3 0 lit".into(), "gt a 2".into(), "gt a 3".into(), "clone a b".into(),
+                    "fill b 3 10 iri".into(), "gt b 5".into(), "gt a 5".into(), "gt a 4".into(), "drop b".into(), "gt a 5".into(),
+                    "take a c".into(), "gt a 0".into(), "gt c 2".into(), "gt c 3".into()]);
+                ctx.stats.bump("scripted.get_term_out_of_range");
+            }
         }
         if *width == "6" {
             // six terms: everything below would only ever see "full"
